@@ -10,6 +10,7 @@ func main() {
 		{Name: "blas-l1", Gen: genBlas(1)},
 		{Name: "blas-l2", Gen: genBlas(2)},
 		{Name: "blas-l3", Gen: genBlas(3)},
+		{Name: "blas-wrap", Gen: genBlasWrap},
 		{Name: "lapack", Gen: genLapack},
 		{Name: "mat-index", Gen: genMatIndex},
 		{Name: "mat-views", Gen: genMatViews},
